@@ -58,10 +58,31 @@ def strip_strings(src):
     return re.sub(r'"(?:[^"]|"")*"', '""', src)
 
 
-def lint_coq():
+def dep_closure(prop_id):
+    """Files of the development that Props/<id>.v transitively requires (by module base name)."""
+    byname = {}
+    for path in glob.glob(os.path.join(kv.COQ, '**', '*.v'), recursive=True):
+        byname.setdefault(os.path.basename(path)[:-2], path)
+    todo, seen = [os.path.join(kv.COQ, 'Props', prop_id + '.v')], set()
+    while todo:
+        path = todo.pop()
+        if path in seen or not os.path.exists(path):
+            continue
+        seen.add(path)
+        src = strip_comments(open(path).read())
+        for m in re.finditer(r'Require\s+(?:Import\s+|Export\s+)?([^.]*(?:\.[A-Za-z_][^.]*)*)\.(?:\s|$)', src):
+            for tok in m.group(1).split():
+                base = tok.split('.')[-1]
+                if base in byname:
+                    todo.append(byname[base])
+    return sorted(seen)
+
+
+def lint_coq(prop_id=None):
     """Fail closed on anything that would declare an axiom or switch off a kernel check."""
     problems = []
-    for path in sorted(glob.glob(os.path.join(kv.COQ, '**', '*.v'), recursive=True)):
+    files = dep_closure(prop_id) if prop_id else sorted(glob.glob(os.path.join(kv.COQ, '**', '*.v'), recursive=True))
+    for path in files:
         src = strip_strings(strip_comments(open(path).read()))
         for m in FORBIDDEN.finditer(src):
             line = src.count('\n', 0, m.start()) + 1
@@ -240,7 +261,7 @@ def main():
     broken = []       # names of theorems / correspondence relations that no longer check
 
     # -- 1+2. tables, build, property theorems
-    lint = lint_coq()
+    lint = lint_coq(prop_id)
     if lint:
         broken.append('lint: ' + '; '.join(lint[:5]))
     model_vo = [f'Model/{m}.vo' for m in mod.COQ_MODELS]
